@@ -274,8 +274,10 @@ def search_stale(ctx, specs, mode, upd, reuse, fn, key):
         # pre-histories on a *perturbed* description that is restored before the final call
         net_p = gen.build(spec)
         perturb = []
+        for eg in net_p.ext_grid.index:                       # every supply point switched off once
+            perturb.append(("ext_grid", int(eg), "in_service", False, bool(net_p.ext_grid.at[eg, "in_service"])))
         for t, row, c, val in editable_cells(net_p, ctx.rng):
-            if isinstance(val, bool) and len(perturb) < 4:
+            if isinstance(val, bool) and len(perturb) < 6:
                 perturb.append((t, row, c, val, H.cell(net_p, t, row, c)))
         for final in finals:
             # a kept _internal_data is the named exception of its own key only
@@ -389,9 +391,16 @@ def make_specs(ctx, n):
     from harness import gen
     specs = []
     profs = ["water", "heat", "gas", "heat", "water", "heat"]
+    from harness import c12_hist as H
     for i in range(n):
         p = profs[i % len(profs)]
-        specs.append((p, gen.gen_net(ctx.rng, p)))
+        if p != "heat" and i % 2 == 0:
+            # two supply areas: switching an external grid changes which part is calculated
+            spec, changed = H.with_second_supply_area(gen.gen_net(ctx.rng, p, features={"island": True}), ctx.rng)
+            ctx.count("two_supply_areas", 1 if changed else 0)
+        else:
+            spec = gen.gen_net(ctx.rng, p)
+        specs.append((p, spec))
     return specs
 
 
